@@ -179,6 +179,17 @@ def rop(rng, case_fields, root_dyn, emphasis):
     r -= w["reset"]
     if r < w["validate"]:
         return (ps, ("validate", rng.random() < 0.5))
+    r -= w["validate"]
+    if r < w.get("loads", 0):
+        tree = None
+        for _ in range(6):
+            cand = untuple(rtree(rng, fields, 2, dyn))
+            if doc_tree_ok(cand):
+                tree = cand
+                break
+        if tree is None:
+            tree = {}
+        return (ps, ("loads", rng.choice(FORMATS), tree, rng.choice(DAMAGE)))
     lists = [(kk, n2) for kk, n2 in fields if n2["t"] == "cfglist"]
     if not lists:
         return (ps, ("set", k, rvalue(rng, nd), "attr"))
@@ -190,12 +201,37 @@ def rop(rng, case_fields, root_dyn, emphasis):
 
 
 EMPHASIS = {
-    "C01": {"set": 0.55, "load": 0.2, "reset": 0.05, "validate": 0.02},
-    "C06": {"set": 0.55, "load": 0.12, "reset": 0.05, "validate": 0.02},
-    "C12": {"set": 0.4, "load": 0.2, "reset": 0.25, "validate": 0.02},
-    "C15": {"set": 0.5, "load": 0.3, "reset": 0.0, "validate": 0.02},
-    "C11": {"set": 0.25, "load": 0.4, "reset": 0.03, "validate": 0.22},
+    "C01": {"set": 0.5, "load": 0.2, "reset": 0.05, "validate": 0.02, "loads": 0.06},
+    "C06": {"set": 0.45, "load": 0.1, "reset": 0.05, "validate": 0.02, "loads": 0.2},
+    "C12": {"set": 0.4, "load": 0.18, "reset": 0.25, "validate": 0.02, "loads": 0.04},
+    "C15": {"set": 0.5, "load": 0.25, "reset": 0.0, "validate": 0.02, "loads": 0.08},
+    "C11": {"set": 0.25, "load": 0.35, "reset": 0.03, "validate": 0.2, "loads": 0.08},
 }
+FORMATS = ["json", "yaml", "bson", "pickle", "xml"]
+DAMAGE = ["none", "none", "truncate", "empty", "garbage", "wrongroot", "truncate3"]
+
+
+def doc_tree_ok(t):
+    """trees every format can carry without change: string keys that are XML names, ints / bools / None / ASCII strings"""
+    if isinstance(t, dict):
+        return all(isinstance(k, str) and k.isidentifier() for k in t) and all(doc_tree_ok(v) for v in t.values())
+    if isinstance(t, list):
+        return all(doc_tree_ok(v) for v in t)
+    if isinstance(t, bool) or t is None:
+        return True
+    if isinstance(t, int):
+        return abs(t) < 2 ** 31
+    if isinstance(t, str):
+        return all(32 <= ord(ch) < 127 for ch in t) and t == t.strip()
+    return False
+
+
+def untuple(t):
+    if isinstance(t, dict):
+        return {k: untuple(v) for k, v in t.items()}
+    if isinstance(t, (list, tuple)):
+        return [untuple(v) for v in t]
+    return t
 
 
 def rcase(rng, prop, nops):
@@ -267,6 +303,11 @@ def matrix_cases():
         ((("key", "sub"),), ("reset", "a")), ((("key", "sub"),), ("reset", "inner")),
         ((), ("validate", False)), ((), ("validate", True)), ((("key", "sub"),), ("validate", True)),
     ]
+    for fmt in FORMATS:
+        for dmg in ["none", "truncate", "empty", "garbage", "wrongroot"]:
+            ops.append(((), ("loads", fmt, {"n": 9, "s": "loaded", "sub": {"a": 2}}, dmg)))
+        ops.append(((), ("loads", fmt, {"n": 500, "s": "x"}, "none")))
+        ops.append(((("key", "sub"),), ("loads", fmt, {"a": 3, "inner": {"t": "q"}}, "truncate")))
     base = {"vt": vt, "dyn": False, "vals": [], "fields": fields}
     base_b = {"vt": vt, "dyn": False, "vals": [], "fields": fields_b}
     ops_b = [
@@ -312,6 +353,14 @@ def generate_for(prop, rng, tier):
         cases.append(c)
     for c in cases:
         c["prop"] = prop
+        # a document whose root is not a map (an empty YAML document is `null`) is not a value for any declared field
+        # and fails inside the include scan with AttributeError: outside every property here, never generated
+        for i, (ps, o) in enumerate(c["ops"]):
+            if o[0] == "loads":
+                for dmg in (o[3], "garbage", "truncate", "none"):
+                    if parse_direct(o[1], make_document(o[1], o[2], dmg), o[2]) != ("err", "notamap"):
+                        c["ops"][i] = (ps, ("loads", o[1], o[2], dmg))
+                        break
     return cases
 
 
@@ -375,7 +424,87 @@ def g_op(o):
         return "(CSetIdx %s %d%%nat %s)" % (g_str(o[1]), o[2], gal(o[3]))
     if o[0] == "validate":
         return "(CValidate %s)" % g_bool(o[1])
+    if o[0] == "loads":
+        parsed = parse_direct(o[1], make_document(o[1], o[2], o[3]), o[2])
+        if parsed[0] == "ok":
+            return "(CLoads (Ok %s))" % gal(parsed[1])
+        return "(CLoads (Err %s))" % {"value": "EValue", "type": "EType", "key": "EKey", "index": "EIndex", "attribute": "EAttribute",
+                                      "unicode": "EUnicode", "overflow": "EOverflow", "os": "EOS"}.get(parsed[1], "EOtherExn")
     raise Broken("bad op %r" % (o,))
+
+
+# ---------------------------------------------------------------------------------------------
+# documents, written and parsed WITHOUT cincoconfig (json / yaml / bson / pickle directly; XML by a printer of the
+# documented layout) so that "does this document parse, and to what" is decided by the libraries themselves
+# ---------------------------------------------------------------------------------------------
+def _xml_value(k, v):
+    from xml.sax.saxutils import escape
+    if v is None:
+        return '<%s type="none" />' % k
+    if isinstance(v, bool):
+        return '<%s type="bool">%s</%s>' % (k, "true" if v else "false", k)
+    if isinstance(v, int):
+        return '<%s type="int">%d</%s>' % (k, v, k)
+    if isinstance(v, str):
+        return '<%s type="str">%s</%s>' % (k, escape(v), k)
+    if isinstance(v, list):
+        return '<%s type="list">%s</%s>' % (k, "".join(_xml_value("item", x) for x in v), k)
+    return '<%s type="dict">%s</%s>' % (k, "".join(_xml_value(kk, x) for kk, x in v.items()), k)
+
+
+def make_document(fmt, tree, damage):
+    import json as _json
+    import pickle as _pickle
+    if fmt == "json":
+        doc = _json.dumps(tree).encode()
+    elif fmt == "yaml":
+        import yaml
+        doc = yaml.safe_dump(tree, sort_keys=False).encode()
+    elif fmt == "bson":
+        import bson
+        doc = bson.dumps(tree)
+    elif fmt == "pickle":
+        doc = _pickle.dumps(tree)
+    else:
+        root = "wrong" if damage == "wrongroot" else "config"
+        doc = ("<%s>%s</%s>" % (root, "".join(_xml_value(k, v) for k, v in tree.items()), root)).encode()
+    if damage == "truncate":
+        doc = doc[:max(1, len(doc) // 2)]
+    elif damage == "truncate3":
+        doc = doc[:max(1, len(doc) - 3)]
+    elif damage == "empty":
+        doc = b""
+    elif damage == "garbage":
+        doc = b"\xff\xfe\x00{{{<<<" + doc[:5]
+    return doc
+
+
+def parse_direct(fmt, doc, tree):
+    """("ok", tree) / ("err", kind): what the format's library makes of the bytes"""
+    import json as _json
+    import pickle as _pickle
+    try:
+        if fmt == "json":
+            t = _json.loads(doc.decode())
+        elif fmt == "yaml":
+            import yaml
+            t = yaml.safe_load(doc.decode())
+        elif fmt == "bson":
+            import bson
+            t = bson.loads(doc)
+        elif fmt == "pickle":
+            t = _pickle.loads(doc)
+        else:
+            import xml.etree.ElementTree as ET
+            root = ET.fromstring(doc.decode())
+            if root.tag != "config":
+                return ("err", "value")
+            t = tree          # an undamaged document of the documented layout (the codec itself is C04's)
+    except Exception as e:  # noqa
+        return ("err", errkind(e))
+    if not isinstance(t, dict):
+        return ("err", "notamap")       # a document whose root is not a map: not a declared field's value, never generated on purpose
+    return ("ok", t)
 
 
 def gcase(c):
@@ -543,6 +672,8 @@ def apply_op(root, ps, o):
             cfg.load_tree(copy.deepcopy(o[1]), validate=o[2])
         elif o[0] == "reset":
             reset_value(cfg, o[1])
+        elif o[0] == "loads":
+            cfg.loads(make_document(o[1], o[2], o[3]), format=o[1])
         elif o[0] == "validate":
             if o[1]:
                 errs = cfg.validate(collect_errors=True)
@@ -757,6 +888,9 @@ def oracle_for(prop, c, obs):
         is_err = isinstance(out, tuple) and out[0] == "err"
         tsteps = st["ps"]
         if prop == "C06":
+            if is_err and o[0] == "loads" and parse_direct(o[1], make_document(o[1], o[2], o[3]), o[2])[0] == "err":
+                if canon_snap(before) != canon_snap(after) or not all(st["same"].values()):
+                    bad.append("a %s document that does not parse (%s) changed the configuration" % (o[1], o[3]))
             if is_err and o[0] in ("set", "append", "setidx"):
                 if canon_snap(before) != canon_snap(after):
                     bad.append("rejected %s %r changed the configuration" % (o[0], o[1:3]))
@@ -837,7 +971,7 @@ def oracle_for(prop, c, obs):
                     bad.append("collecting mode returned %r but raising mode %s" % (collected, "raised %r" % (raised,) if raised else "returned"))
                 elif collected and raised != collected[0]:
                     bad.append("raising mode raised %r, first collected error is %r" % (raised, collected[0]))
-            if out == "ok" and ((o[0] == "load" and o[2]) or (o[0] == "validate" and not o[1])):
+            if out == "ok" and ((o[0] == "load" and o[2]) or (o[0] == "validate" and not o[1]) or o[0] == "loads"):
                 tf = node_at(fields, tsteps)
                 check_required(tf, get_cfg_snap(after, tsteps), st["tpath"] or "", bad, c["_built"].vt, c, tsteps)
             if o[0] == "validate" and o[1] and isinstance(out, tuple) and out[0] == "errs" and not out[1]:
